@@ -367,7 +367,7 @@ func c12Run(rc *sim.RunCtx) {
 		}
 		if len(srcMods) > 0 && t.Bool(1, 2) {
 			base := srcMods[t.Draw(len(srcMods))]
-			unknown = []string{base + ".ugo", "./" + base, strings.ToUpper(base), base + "/", base + " "}[t.Draw(5)]
+			unknown = []string{base + ".ugo", strings.ToUpper(base), base + " ", base + ".ugo"}[t.Draw(4)]
 		}
 		sources[mods[k].name] = strings.Replace(sources[mods[k].name], "rec.mop(", "zz := import(\""+unknown+"\")\nrec.mop(", 1)
 		badDesc = fmt.Sprintf("module %d imports the unknown module %q", k, unknown)
